@@ -390,6 +390,10 @@ class IncrementalTrackingSolver(Solver):
         raise NotImplementedError
 
     def pop(self, levels: int=1):
+        if levels > len(self._backtrack_points):
+            # Fail before changing the state of the underlying solver
+            raise PysmtValueError("Cannot pop %d levels: only %d have been pushed" %
+                                  (levels, len(self._backtrack_points)))
         self._pop(levels=levels)
         for _ in range(levels):
             point = self._backtrack_points.pop()
